@@ -136,5 +136,8 @@ func nthFeatures(r prule, set map[string]bool) {
 		if sl.b <= 0 {
 			set["nth-offset-not-positive"] = true
 		}
+		if sl.a == 0 && sl.b == 0 {
+			set["nth-zero-step-zero-offset"] = true // :nth(0): the value the implementation uses for "no :nth()"
+		}
 	}
 }
